@@ -150,6 +150,46 @@ def _valid_chunk(chunk):
     return len(chunk), nt, fails
 
 
+PREFIX_TABLE = {'sysconfdir': ({'/usr': '/etc'}, 'etc'), 'localstatedir': ({'/usr': '/var', '/usr/local': '/var/local'}, 'var'),
+                'sharedstatedir': ({'/usr': '/var/lib', '/usr/local': '/var/local/lib'}, 'com')}
+
+
+def _norm(p):
+    return p[:-1] if len(p) > 1 and p.endswith('/') else p
+
+
+def _prefix_chunk(chunk):
+    """prefix-dependent directory defaults follow the prefix — in whatever (equivalent) spelling and from whichever
+    source the prefix is given, also when several sources give one (command line > machine file > default_options)"""
+    from mesonbuild.options import OptionStore, OptionKey
+    K = OptionKey
+    fails, nt = [], 0
+    for pd, mf, cmd, explicit in chunk:
+        st = OptionStore(False)
+        st.init_builtins()
+        d_pd = {K('prefix'): pd} if pd else {}
+        d_mf = {K('prefix'): mf} if mf else {}
+        d_cmd = {K('prefix'): cmd} if cmd else {}
+        if explicit:
+            d_cmd[K('sysconfdir')] = '/custom/etc'
+        try:
+            st.initialize_from_top_level_project_call(d_pd, d_cmd, d_mf)
+        except Exception as ex:
+            fails.append({'case': {'default_options': pd, 'machine_file': mf, 'command_line': cmd, 'explicit_sysconfdir': explicit}, 'stage': 'prefix', 'detail': f'raised {type(ex).__name__}: {ex}'})
+            continue
+        eff = _norm(cmd or mf or pd or '/usr/local')
+        nt += bool(pd or mf or cmd)
+        exp = {'prefix': eff}
+        for n, (m, dflt) in PREFIX_TABLE.items():
+            exp[n] = m.get(eff, dflt)
+        if explicit:
+            exp['sysconfdir'] = '/custom/etc'
+        got = {n: st.get_value_for(n) for n in exp}
+        if got != exp:
+            fails.append({'case': {'default_options': pd, 'machine_file': mf, 'command_line': cmd, 'explicit_sysconfdir': explicit}, 'stage': 'prefix', 'detail': f'directories {got}, the prefix {eff!r} prescribes {exp}'})
+    return len(chunk), nt, fails
+
+
 def run(REG, tier, seed, jobs):
     parts = []
     kinds = ['integer', 'combo', 'string', 'boolean', 'feature']
@@ -169,9 +209,15 @@ def run(REG, tier, seed, jobs):
     ev, nt, fails = pmap(_valid_chunk, chunked(iter(cases), 16), jobs)
     parts.append({'name': 'C07/bounded/invalid-rejected-stored-valid', 'function': 'OptionStore.set_option / UserOption.set_value', 'bound': f'{len(kinds)} option kinds x {len(values)} candidate values of all python types',
                   'evaluations': ev, 'distinct_nontrivial': nt, 'rule': 'every case is distinct', 'exhaustive': True, 'failures': fails})
+    spell = [None, '/usr', '/usr/', '/usr/local', '/usr/local/', '/opt', '/opt/x/', '/']
+    cases = [(a, b, c, e) for a in spell for b in spell for c in spell for e in (False, True)]
+    ev, nt, fails = pmap(_prefix_chunk, chunked(iter(cases), 64), jobs)
+    parts.append({'name': 'C07/bounded/directory-defaults-follow-prefix', 'function': 'OptionStore.first_handle_prefix / hard_reset_from_prefix', 'bound': f'{len(cases)} cases: prefix absent or in one of 7 spellings (trailing separator included) in default_options x machine file x command line, with and without an explicit sysconfdir',
+                  'evaluations': ev, 'distinct_nontrivial': nt, 'rule': 'non-trivial: some source gives a prefix', 'exhaustive': True, 'failures': fails})
     return {'parts': parts}
 
 
 CHECKS = {
     'C07/bounded/precedence-all-source-subsets': (_prec_chunk, lambda c: (c['kind'], c['mask'])),
+    'C07/bounded/directory-defaults-follow-prefix': (_prefix_chunk, lambda c: (c['default_options'], c['machine_file'], c['command_line'], c['explicit_sysconfdir'])),
 }
